@@ -9,6 +9,7 @@ import Receptor.Drive.Route
 import Receptor.Drive.Aging
 import Receptor.Drive.Unreach
 import Receptor.Drive.Ads
+import Receptor.Drive.Proto
 /-! Line-protocol driver: one JSON request per line `{"e":engine,"op":op,"a":args,"r":impl-observation}`,
 one JSON reply per line `{"m":model-result,"prop":true|false|null,"why":…}` or `{"bad-op":…}`. -/
 open Lean Receptor.Drive
@@ -27,6 +28,7 @@ def dispatch (e op : String) (a r : Json) : Except String Reply :=
   | "aging" => Receptor.Drive.Aging.handle op a r
   | "unreach" => Receptor.Drive.Unreach.handle op a r
   | "ads" => Receptor.Drive.Ads.handle op a r
+  | "proto" => Receptor.Drive.Proto.handle op a r
   | _ => throw s!"bad-op unknown engine {e}"
 
 def handleLine (line : String) : String :=
